@@ -67,7 +67,7 @@ fn eval_naive(oh: &OpeningHours<NoLocation>, t: NaiveDateTime, input_tz: Option<
     })
 }
 
-fn eval_aware(oh: &OpeningHours<TzLocation<Tz>>, t: DateTime<Tz>, skip_window: bool) -> Value {
+fn eval_aware(oh: &OpeningHours<TzLocation<Tz>>, t: DateTime<Tz>, end: DateTime<Tz>, skip_window: bool) -> Value {
     let st = oh.state(t);
     let ivs = |it: Vec<DateTimeRange<DateTime<Tz>>>| -> Vec<Value> {
         it.iter()
@@ -82,7 +82,7 @@ fn eval_aware(oh: &OpeningHours<TzLocation<Tz>>, t: DateTime<Tz>, skip_window: b
         "flags": [oh.is_open(t), oh.is_closed(t), oh.is_unknown(t)],
         "next_change": oh.next_change(t).map(|d| aware_json(&d)).unwrap_or(Value::Null),
         "intervals": ivs(oh.iter_from(t).take(4).collect()),
-        "intervals_bounded": if skip_window { Vec::new() } else { ivs(oh.iter_range(t, t + Duration::days(3)).take(12).collect()) },
+        "intervals_bounded": if skip_window { Vec::new() } else { ivs(oh.iter_range(t, end).take(12).collect()) },
     })
 }
 
@@ -135,7 +135,13 @@ pub fn core(args: &Args) {
                             // a naive input is a wall-clock time of the context zone
                             None => loc.datetime(naive),
                         };
-                        eval_aware(&oh, t, skip_window)
+                        // the driver adds three days on the wall clock of its input (Python datetime arithmetic)
+                        let later = naive + Duration::days(3);
+                        let end: DateTime<Tz> = match input_tz {
+                            Some(z) => z.from_local_datetime(&later).earliest().unwrap_or_else(|| z.from_utc_datetime(&later)).with_timezone(loc.get_timezone()),
+                            None => loc.datetime(later),
+                        };
+                        eval_aware(&oh, t, end, skip_window)
                     }
                 };
 
